@@ -510,11 +510,11 @@ static int _extract_rc(char *buf)
     char *p = strstr(buf, RC_MAGIC);
 
     if (p) {
+        /* read the code before the line is edited: p moves below */
+        ret = atoi(p + strlen(RC_MAGIC));
         if (buf[strlen(buf) - 1] == '\n' && p != buf)
             *p++ = '\n';
         *p = '\0';
-        p += strlen(RC_MAGIC);
-        ret = atoi(p);
     }
     return ret;
 }
